@@ -58,6 +58,18 @@ TABLE={ # id: (property, demo file, package dir, -run pattern, needs)
  "C14-c":("C14","zz_seed_demo_test.go","internal/wire","TestSeedDemo","a headers frame whose count varint is the 9-byte form with the top bit set"),
  "C17-c":("C17","zz_seed_demo_test.go","database","TestSeedDemo","an exported longest-chain header with a timestamp >= 2^31"),
  "C19-c":("C19","zz_seed_demo_test.go","domains","TestSeedDemo","difficulty bits with exponent < 3 and a non-zero mantissa that truncates to target 0"),
+ "C01-d":("C01","zz_seed_demo_test.go","service","TestSeedDemo","an ORPHAN header re-submitted after its parent became known"),
+ "C02-d":("C02","zz_seed_demo_test.go","transports/http/endpoints/api/merkleroots","TestSeedDemo","a verify request of >= 2 items with an INVALID item that is not the last"),
+ "C05-d":("C05","zz_seed_demo_test.go","service","TestSeedDemo","exactly the promotion write of a reorganisation fails (the following insert succeeds)"),
+ "C12-d":("C12","zz_seed_demo_test.go","notification","TestSeedDemo","a webhook deactivated by max_tries failures, re-registered, then queried or failing again before any success"),
+ "C15-c":("C15","zz_seed_demo_test.go","service","TestSeedDemo","two concurrent Adds with different parents, one on the longest chain and one on a stale branch that then reorganises"),
+ "C16-d":("C16","zz_seed_demo_test.go","transports/http/endpoints/api/webhook","TestSeedDemo","GET or DELETE /webhook with a missing or empty url parameter"),
+ "C18-c":("C18","zz_seed_demo_test.go","transports/p2p","TestSeedDemo","a persistent outbound peer admitted and leaving again (repeatedly)"),
+ "C03-d":("C03","zz_seed_demo_test.go","database","TestSeedDemo","an imported CSV longer than one batch (500 rows)"),
+ "C06-d":("C06","zz_seed_demo_test.go","transports/p2p/p2psync","TestSeedDemo","every sync candidate is exactly at our height when the sync peer is chosen, and new blocks are announced by inv afterwards"),
+ "C07-d":("C07","zz_seed_demo_test.go","transports/p2p/p2psync","TestSeedDemo","a batch with a wrong checkpoint-height header followed by at least one more accepted header"),
+ "C08-d":("C08","zz_seed_demo_test.go","database/repository","TestSeedDemo","a STALE or ORPHAN header at a height inside the requested page"),
+ "C11-d":("C11","zz_seed_demo_test.go","service","TestSeedDemo","a submission stored as STALE or ORPHAN"),
 }
 ENV=dict(os.environ,GOFLAGS="-mod=mod",GOPROXY="off")
 def run(cmd,cwd,timeout=1500):
